@@ -22,6 +22,10 @@ type coro struct {
 	cur     *frame
 	started bool
 	vc      vclock // race.go
+	// verifWait bookkeeping: parked inside verifWait, and the progress count it last polled at
+	inWait   bool
+	polledAt int
+	waitDL   int64 // deadline (unix ms) of the operation it polls for; 0: none
 }
 
 type sched struct {
@@ -32,6 +36,8 @@ type sched struct {
 	policy   string // "first" | "last" | "rr" | "free"
 	yields   int
 	freeMax  int
+	prefer   *coro // the next pick, once (verifWait hands over to somebody who is not merely polling)
+	progress int // bumped whenever a goroutine does something other than poll in verifWait
 }
 
 func (in *Interp) initSched() {
@@ -68,6 +74,7 @@ func (in *Interp) spawn(f func(), name string) *coro {
 // switchAway hands control to another coroutine after c finished (never returns to c).
 func (in *Interp) switchAway(c *coro) {
 	s := in.co
+	s.progress++
 	if s.abortVal != nil {
 		m := s.coros[0]
 		s.current = m
@@ -75,6 +82,9 @@ func (in *Interp) switchAway(c *coro) {
 		return
 	}
 	n := in.pickNext(c)
+	for n == nil && in.ctxFireNextDeadline() {
+		n = in.pickNext(c)
+	}
 	if n == nil {
 		// nothing runnable: wake main so that it can detect the deadlock
 		n = s.coros[0]
@@ -111,6 +121,12 @@ func (in *Interp) runnable(c *coro) bool {
 // pickNext chooses the coroutine to run after cur yields (cur excluded unless it is the only one).
 func (in *Interp) pickNext(cur *coro) *coro {
 	s := in.co
+	if p := s.prefer; p != nil {
+		s.prefer = nil
+		if p != cur && in.runnable(p) {
+			return p
+		}
+	}
 	var cand []*coro
 	for _, c := range s.coros {
 		if c != cur && in.runnable(c) {
@@ -145,6 +161,9 @@ func (in *Interp) pickNext(cur *coro) *coro {
 func (in *Interp) yieldUntil(ready func() bool) {
 	s := in.co
 	me := s.current
+	if ready != nil {
+		s.progress++
+	}
 	for {
 		if ready != nil && ready() {
 			me.ready = nil
@@ -155,6 +174,9 @@ func (in *Interp) yieldUntil(ready func() bool) {
 		if n == nil {
 			if ready == nil {
 				return // nobody else to run
+			}
+			if in.ctxFireNextDeadline() {
+				continue // everybody was blocked: time passes until the next context deadline
 			}
 			in.out.Msg = "deadlock: " + in.describeCoros()
 			panic(abort{kind: "deadlock", msg: in.out.Msg})
@@ -182,6 +204,7 @@ func (in *Interp) yieldUntil(ready func() bool) {
 // Yield is a scheduling point without blocking. Under a sticky policy the running
 // goroutine keeps the processor until it blocks.
 func (in *Interp) Yield() {
+	in.co.progress++
 	if len(in.co.coros) > 1 && !strings.HasPrefix(in.co.policy, "sticky-") {
 		in.yieldUntil(nil)
 	}
